@@ -20,7 +20,7 @@ def NoLoad (c0 : Blk) : Call → Prop
   | .seek off => c0.base = some off ∧ good c0 = true
 
 /-- The current block after the call. -/
-def Fin (c0 : Blk) (cl : Call) (b : Blk) : Prop := (b = c0 ∧ NoLoad c0 cl) ∨ ∃ e, Tgt c0 cl e ∧ b.base = some e
+def Installs (c0 : Blk) (cl : Call) (b : Blk) : Prop := (b = c0 ∧ NoLoad c0 cl) ∨ ∃ e, Tgt c0 cl e ∧ b.base = some e
 
 /-- As `Ph`, for any fault pattern: only the base of the block installed is tracked. -/
 def PhB (c0 : Blk) (cl : Call) (rest : List Op) (u : State) : Prop :=
@@ -28,8 +28,8 @@ def PhB (c0 : Blk) (cl : Call) (rest : List Op) (u : State) : Prop :=
   (u.script = rest ∧ ∃ e, Tgt c0 cl e ∧
       ((∃ i, u.cons = .scan e i) ∨ u.cons = .fetch e ∨ u.cons = .sel e ∨ u.cons = .sync e ∨
        ((u.cons = .drain e ∨ u.cons = .send e) ∧ u.cur.base = some e))) ∨
-  (u.script = rest ∧ (∃ ok, u.cons = .ret ok) ∧ Fin c0 cl u.cur) ∨
-  (u.script = rest ∧ u.cons = .idle ∧ Fin c0 cl u.cur) ∨
+  (u.script = rest ∧ (∃ ok, u.cons = .ret ok) ∧ Installs c0 cl u.cur) ∨
+  (u.script = rest ∧ u.cons = .idle ∧ Installs c0 cl u.cur) ∨
   u.cons = .panicked ∨
   u.script.length < rest.length
 
@@ -217,7 +217,7 @@ theorem phb_path {c0 : Blk} {cl : Call} {rest : List Op} {s t : State}
 block is the old one (no load was made) or a block at the base asked for. -/
 theorem call_installs_base {cl : Call} {rest : List Op} {s t : State}
     (hc : s.cons = .idle) (hs : s.script = cl.op :: rest) (hn : Op.nexts ∉ rest)
-    (hp : Path cfg s t) (htc : t.cons = .idle) (hts : t.script = rest) : Fin s.cur cl t.cur := by
+    (hp : Path cfg s t) (htc : t.cons = .idle) (hts : t.script = rest) : Installs s.cur cl t.cur := by
   have := phb_path hn (Or.inl ⟨hc, hs, rfl⟩) hp
   rcases this with ⟨_, h2, _⟩ | ⟨_, e0, _, hcons⟩ | ⟨_, ⟨ok, h2⟩, _⟩ | ⟨_, _, h3⟩ | h2 | h2
   · rw [hts] at h2
@@ -454,5 +454,129 @@ theorem gSeek_seqF {F : File} (hwf : WF F) (x : FReader) (hf : x.r.file = F) (of
       simp [blkOf, good, h1, h2]
     simp only [Prog.seqF, respF, hy, and_self, if_true, FReader.withR]
     exact ⟨rfl, hf⟩
+
+theorem gStepF_seqF {F : File} (hwf : WF F) (x : FReader) (hf : x.r.file = F) (op : Hts.Spec.Flat.Op) :
+    (gStepF x.r op).seqF F (blkOf x.r.cur) x.oracle =
+      (((x.step op).1.r, (x.step op).2), blkOf (x.step op).1.r.cur, (x.step op).1.oracle) ∧
+    (x.step op).1.r.file = F := by
+  cases op with
+  | read n =>
+    have h := gRead_seqF hwf x hf n
+    simp only [gStepF, FReader.step, Prog.seqF_bind, h.1]
+    exact ⟨rfl, h.2⟩
+  | readByte =>
+    have h := gReadByte_seqF hwf x hf
+    simp only [gStepF, FReader.step, Prog.seqF_bind, h.1]
+    exact ⟨rfl, h.2⟩
+  | seek o =>
+    have h := gSeek_seqF hwf x hf o
+    simp only [gStepF, FReader.step, Prog.seqF_bind, h.1]
+    exact ⟨rfl, h.2⟩
+  | setBlocked b => exact ⟨rfl, hf⟩
+
+/-- Run with an oracle, the program of a history is `FReader.run`. -/
+theorem gRunF_seqF {F : File} (hwf : WF F) : ∀ (ops : List Hts.Spec.Flat.Op) (x : FReader), x.r.file = F →
+    ((gRunF x.r ops).seqF F (blkOf x.r.cur) x.oracle).1 = (x.run ops).map fun p => (p.1, p.2.r) := by
+  intro ops
+  induction ops with
+  | nil => intro x _; rfl
+  | cons op ops ih =>
+    intro x hf
+    have h := gStepF_seqF hwf x hf op
+    simp only [gRunF, FReader.run, Prog.seqF_bind, h.1]
+    rw [ih _ h.2]
+    rfl
+
+/-! ### Every execution over the faulty protocol is a run of the fault model -/
+
+theorem failErr_of_chain {F : File} {b nx : Nat} (h : chainOf F b = some nx) : failErr F b = .other := by
+  simp only [chainOf] at h
+  simp only [failErr]
+  cases hm : memberAt F b with
+  | ok m => rfl
+  | eof => simp [hm] at h
+  | bad => rfl
+
+theorem popF_choice (F : File) (e : Nat) (nx : Option Nat) (h : nx = chainOf F e ∨ nx = none)
+    (orc' : List LoadFault) :
+    ∃ f, popF F e (f :: orc') = (blockOf F ⟨some e, nx⟩, ⟨some e, nx⟩, orc') := by
+  by_cases hc : nx = chainOf F e
+  · exact ⟨.ok, by rw [hc]; rfl⟩
+  · have hn : nx = none := by rcases h with h | h; exact absurd h hc; exact h
+    subst hn
+    cases hch : chainOf F e with
+    | none => exact absurd hch.symm hc
+    | some m =>
+      refine ⟨.err, ?_⟩
+      simp only [popF, blockOf, failErr_of_chain hch]
+
+theorem respF_choice (F : File) (c t : Blk) (cl : Call) (hfin : Installs c cl t)
+    (hwf : WFBlk (chainOf F) t) (hcb : ∃ b, c.base = some b) (orc' : List LoadFault) :
+    ∃ orc, respF F c cl orc = (blockOf F t, t, orc') := by
+  rcases hfin with ⟨rfl, hno⟩ | ⟨e, htg, hbase⟩
+  · cases cl with
+    | seek off =>
+      have hno' : t.base = some off ∧ good t = true := hno
+      exact ⟨orc', by simp only [respF, hno', and_self, if_true]⟩
+    | next =>
+      have hno' : t.next = none := hno
+      obtain ⟨b, hb⟩ := hcb
+      obtain ⟨tb, tn⟩ := t
+      simp only at hno' hb
+      subst hno' hb
+      obtain ⟨f, hf⟩ := popF_choice F b none (Or.inr rfl) orc'
+      exact ⟨f :: orc', by simpa [respF] using hf⟩
+  · obtain ⟨tb, tn⟩ := t
+    simp only at hbase
+    subst hbase
+    have hw : tn = chainOf F e ∨ tn = none := by simpa [WFBlk] using hwf
+    obtain ⟨f, hf⟩ := popF_choice F e tn hw orc'
+    cases cl with
+    | next =>
+      have htg' : c.next = some e := htg
+      exact ⟨f :: orc', by simpa [respF, htg'] using hf⟩
+    | seek off =>
+      have htg' : e = off ∧ ¬ (c.base = some off ∧ good c = true) := htg
+      obtain ⟨rfl, hnf⟩ := htg'
+      exact ⟨f :: orc', by simp only [respF, hnf, if_false]; exact hf⟩
+
+/-- **Every program, every path, every fault pattern.**  What a byte-level program returns over the protocol
+with faults is what it returns with some fault oracle. -/
+theorem over_faults_eq_seqF {α : Type} {F : File} (hc : cfg.OK) (hch : cfg.chain = chainOf F)
+    {p : Prog α} {s t : State} {a : α} (h : Over cfg F p s a t) (hr : Reachable cfg s)
+    (hn : Op.nexts ∉ s.script) (hb : ∃ b, s.cur.base = some b) :
+    ∃ orc, (p.seqF F s.cur orc).1 = a := by
+  induction h with
+  | done => exact ⟨[], rfl⟩
+  | @call cl k rest s t u a hci hs hp htc hts _ ih =>
+    rw [hs] at hn
+    have hn' : Op.nexts ∉ rest := fun hh => hn (by simp [hh])
+    have hfin := call_installs_base hci hs hn' hp htc hts
+    have hrt := path_reachable hr hp
+    have hwf : WFBlk (chainOf F) t.cur := by rw [← hch]; exact (inv_reachable hc hrt).wfCur
+    have hbt : ∃ b, t.cur.base = some b := by
+      rcases hfin with ⟨h1, _⟩ | ⟨e, _, h1⟩
+      · rw [h1]; exact hb
+      · exact ⟨e, h1⟩
+    obtain ⟨orc', ho⟩ := ih hrt (by rw [hts]; exact hn') hbt
+    obtain ⟨orc, hresp⟩ := respF_choice F s.cur t.cur cl hfin hwf hb orc'
+    exact ⟨orc, by simp only [Prog.seqF, hresp]; exact ho⟩
+
+/-- **Histories over the faulty protocol.**  From `NewReader`, along every path and for every fault pattern,
+what a history returns per operation (output and reader state) is what the operational fault model of C09
+returns for some fault oracle. -/
+theorem over_history_is_fault_model {F : File} (hwf : WF F) {r0 : Reader} (h0 : Reader.new F = .ok r0)
+    (ops : List Hts.Spec.Flat.Op) (rd : Nat) (hrd : 2 ≤ rd) (script : List Op) (hn : Op.nexts ∉ script)
+    (outs : List (Out × Reader)) (t : State)
+    (h : Over ⟨rd, chainOf F, script, true⟩ F (gRunF r0 ops) (init ⟨rd, chainOf F, script, true⟩) outs t) :
+    ∃ oracle, outs = ((FReader.mk r0 oracle).run ops).map fun p => (p.1, p.2.r) := by
+  have ht := tracks_new hwf h0
+  obtain ⟨orc, ho⟩ := over_faults_eq_seqF (cfg := ⟨rd, chainOf F, script, true⟩) (cfg_ok hwf rd hrd script true)
+    rfl h .init hn ⟨0, rfl⟩
+  refine ⟨orc, ?_⟩
+  have hi : (init ⟨rd, chainOf F, script, true⟩).cur = blkOf r0.cur := by rw [ht.2]; rfl
+  rw [hi] at ho
+  rw [← ho]
+  exact gRunF_seqF hwf ops ⟨r0, orc⟩ ht.1.1
 
 end Hts.Model.ReadAhead
